@@ -173,20 +173,21 @@ Record Own (t : st) : Prop := {
   o_act_c : forall c, c_phase (cl t c) = PHandle -> (c_state (cl t c) = CActive <-> c_held (cl t c) <> None);
   o_act_s : forall s, s_live (sv t s) = true -> (s_state (sv t s) = SActive <-> s_holder (sv t s) <> None);
   o_chk : forall c, c_chk (cl t c) = true -> c_phase (cl t c) = PHandle /\ c_held (cl t c) = None;
-  o_wait : forall c, c_phase (cl t c) = PHandle -> c_state (cl t c) = CWaiting -> c_chk (cl t c) = true }.
+  o_wait : forall c, c_phase (cl t c) = PHandle -> c_state (cl t c) = CWaiting -> c_chk (cl t c) = true;
+  o_iter : forall c, c_iter (cl t c) = true -> c_chk (cl t c) = true /\ c_state (cl t c) = CWaiting }.
 
 Lemma Own_init : Own init.
 Proof. constructor; simpl; intros; try congruence; try discriminate. Qed.
 
 Lemma Own_step cf t o : Wf t -> Own t -> Own (step cf t o).
 Proof.
-  intros [_ _ _ _ LV] W. destruct W as [CS SC AC AS CK WT].
+  intros [_ _ _ _ LV] W. destruct W as [CS SC AC AS CK WT IT].
   open_step cf t o En; (constructor; cbn [cl cids sv sids creg sreg at_]).
   all: try assumption.
   all: intros;
-       each_nat ltac:(fun x => pose proof (AC x); pose proof (AS x); pose proof (CK x); pose proof (WT x); pose proof (LV x);
+       each_nat ltac:(fun x => pose proof (AC x); pose proof (AS x); pose proof (CK x); pose proof (WT x); pose proof (IT x); pose proof (LV x);
                                each_nat2 ltac:(fun y => pose proof (CS x y); pose proof (SC x y)));
-       clear CS SC AC AS CK WT LV;
+       clear CS SC AC AS CK WT IT LV;
        unfold upd, set_sstate in *; eqb_all; cbn in *; try congruence; try tauto;
        intuition congruence.
 Qed.
